@@ -51,6 +51,8 @@ def route(entry, doc, v, allow_custom, tmp):
         return core.guarded(stix2.parse, doc, allow_custom=allow_custom, version=v)
     if entry == "parse-text":
         return core.guarded(stix2.parse, json.dumps(doc), allow_custom=allow_custom, version=v)
+    if entry == "parse_observable":
+        return core.guarded(stix2.parse_observable, doc, allow_custom=allow_custom, version=v)
     if entry == "env-parse":
         return core.guarded(Environment().parse, doc, allow_custom=allow_custom, version=v)
     if entry == "memory-store-ctor":
@@ -256,6 +258,8 @@ def run(ctx):
                 for v in VERSIONS:
                     # does the version / strictness matter for this document?
                     entries = ENTRIES if not ctx.quick else [ENTRIES[(rot + k + j * 3) % len(ENTRIES)] for j in range(9)]
+                    if doc["type"] in M.get("2.1").observables and v is not None:
+                        entries = list(entries) + ["parse_observable"]     # observables: the dedicated entry point must agree with parse()
                     for entry in dict.fromkeys(entries):
                         k += 1
                         allow = (rot + k) % 3 == 0
